@@ -155,7 +155,7 @@ def perturbations(ctx, n):
                     ctx.extra.setdefault("coincidences", []).append({"what": "key%d" % half, "cookie": c0})
             # table reset / history independence
             if rng.random() < 0.2:
-                ctx.driver().reset()
+                ctx.reset_table()
                 c = cookie_of(ctx, e, sp, dp)
                 if c != c0:
                     ctx.violation("cookie_unstable", "cookie changed after a table reset: %r -> %r" % (c0, c), frames=list(ctx.history[-1:]))
